@@ -70,6 +70,19 @@ func (e *Env) runJob(j *Job) {
 		procs = ProcsFor(j.From)
 	}
 	cmd.Env = append(append(os.Environ(), fmt.Sprintf("GOMAXPROCS=%d", procs), fmt.Sprintf("VERIF_DEPTH=%d", e.Depth)), append(stallEnv, j.Env...)...)
+	// the system entropy source as a fault of the process (pool world);
+	// replays say themselves which process they re-enact
+	isReplay := false
+	for _, x := range j.Extra {
+		if x == "-replay" {
+			isReplay = true
+		}
+	}
+	if !isReplay {
+		if m := kernel.SystemEntropyFor(j.World, j.From); m != "" {
+			cmd.Env = append(cmd.Env, "VERIF_SYSTEM_ENTROPY="+m)
+		}
+	}
 	var stdout, stderr bytes.Buffer
 	cmd.Stdout, cmd.Stderr = &stdout, &stderr
 	t0 := time.Now()
